@@ -49,6 +49,7 @@ def formulas(tier):
         # numeric columns used as grouping factors (ids, years)
         "y ~ (1|k)", "y ~ (x|kb)", "y ~ (1|k:f)", "y ~ (1|kf)",
         # parameters of a stateful transform given through names of the caller (re-bound after training)
+        "y ~ less(x, by=z)", "y ~ less(x, by=center(z)):f",
         "y ~ poly(x, deg, raw=True)", "y ~ poly(x, deg, raw=rawflag):f", "y ~ (poly(x, deg, raw=True)|g)",
     ]
     if tier != "quick":
@@ -110,7 +111,7 @@ def harness(env, case):
     tier = harness.tier
     vars_ = gen.used_vars(formula)
     df, rows = gen.build_frame(env, vars_, flavour, "scramble", concrete=concrete, min_rows=8 if concrete else 5, reps=4 if concrete else 1)
-    ns = {"lv": list(LV), "shift": Shift, "deg": 2, "rawflag": True}
+    ns = {"lv": list(LV), "shift": Shift, "deg": 2, "rawflag": True, "less": (lambda a, by: a - by)}
     if concrete and "x" in df:
         lo, hi = float(np.min(df["x"])), float(np.max(df["x"]))
         ns["kn"] = [lo + 0.3 * (hi - lo), lo + 0.65 * (hi - lo)]
